@@ -197,4 +197,62 @@ theorem applyMove_at [Add V] (inp : PathIn V) (start : Option Int) (o : Obj G V)
         = (window inp.isScalar o.pos.length inp.lenip start).newLen := by omega
     simp only [e1]
 
+theorem applyRotation_at [Mul G] [SMul G V] [Add V] [Sub V]
+    (rot : PathIn G) (anchor : Option (PathIn V)) (start : Option Int) (o : Obj G V)
+    (hne : o.pos ≠ []) (hlen : o.ori.length = o.pos.length)
+    (hr : rot.WF) (ha : ∀ a, anchor = some a → a.WF) (i : Nat) :
+    ((applyRotation rot anchor start none o).pos[i]?,
+     (applyRotation rot anchor start none o).ori[i]?) =
+      rotateAt rot anchor start o.pos o.ori i := by
+  cases anchor with
+  | none =>
+    simp only [applyRotation]
+    rw [applyRotationAligned_at _ _ _ _ hne hlen]
+    simp only [alignedAt, rotateAt, Bool.and_true]
+    have hw : window rot.isScalar o.pos.length rot.lenip start
+        = window rot.isScalar o.pos.length (max rot.len0 0) start :=
+      window_congr _ _ _ _ _ (fun h => by rw [len0_eq_lenip _ h]; simp)
+    rw [← hw]
+    congr 1
+    congr 1
+    funext q
+    by_cases hin : (window rot.isScalar o.pos.length rot.lenip start).s0 ≤ i ∧
+        i < (window rot.isScalar o.pos.length rot.lenip start).stop
+    · simp only [hin, and_self, if_true]
+      rw [get?_eq_bcast rot _ (fun hsc => by rw [len0_eq_lenip _ hsc]; exact inWin_lt hin hsc)]
+      rfl
+    · simp only [hin, if_false]
+  | some a =>
+    obtain ⟨f1, f2, f3⟩ := multiAnchor_facts a rot (ha a rfl) hr
+    simp only [applyRotation]
+    rw [applyRotationAligned_at _ _ _ _ hne hlen]
+    simp only [alignedAt, rotateAt]
+    have hw : window (multiAnchor a rot).2.isScalar o.pos.length (multiAnchor a rot).2.lenip start
+        = window (rot.isScalar && a.isScalar) o.pos.length (max rot.len0 a.len0) start := by
+      rw [f1]
+      exact window_congr _ _ _ _ _ f2
+    rw [hw]
+    congr 1
+    · congr 1
+      funext p
+      by_cases hin : (window (rot.isScalar && a.isScalar) o.pos.length (max rot.len0 a.len0) start).s0 ≤ i ∧
+          i < (window (rot.isScalar && a.isScalar) o.pos.length (max rot.len0 a.len0) start).stop
+      · simp only [hin, and_self, if_true]
+        obtain ⟨g1, g2⟩ := f3 (i - (window (rot.isScalar && a.isScalar) o.pos.length (max rot.len0 a.len0) start).s0)
+          (fun hsc => inWin_lt hin hsc)
+        rw [g1, g2]
+        rfl
+      · simp only [hin, if_false]
+    · congr 1
+      funext q
+      by_cases hin : (window (rot.isScalar && a.isScalar) o.pos.length (max rot.len0 a.len0) start).s0 ≤ i ∧
+          i < (window (rot.isScalar && a.isScalar) o.pos.length (max rot.len0 a.len0) start).stop
+      · simp only [hin, and_self, if_true]
+        obtain ⟨g1, g2⟩ := f3 (i - (window (rot.isScalar && a.isScalar) o.pos.length (max rot.len0 a.len0) start).s0)
+          (fun hsc => inWin_lt hin hsc)
+        rw [g1]
+        rfl
+      · simp only [hin, if_false]
+
+
 end MagpyVerif
